@@ -19,6 +19,15 @@ received (counter = increments − decrements; OR-set ∋ x ⇔ some received ad
 a received remove; register = a received write with a greatest timestamp); a store reports every
 key it has received an update for; a gossip message carries every key its sender has received an
 update for.
+
+Liveness of gossip (`store/gossip/no-convergence-after-heal-and-rounds`): a script may end in a
+phase of *lossless gossip rounds* (`round s j`: store s ticks, its push reaches the peer the tick
+chose, the peer's answer — owed when it lists s as a peer — reaches s; nothing is lost, nobody
+writes).  What each round owes is known from the script and the peer lists alone: s's state flows to
+the peer, and back if an answer is owed.  If these owed flows, in order, carry every store's state
+to every store (`reachB`), then at the end every store must report, for every key, the specified
+value of *all* updates any store had received when the phase began — in particular all stores are
+equal.
 -/
 namespace HappyModel.C18
 
@@ -40,7 +49,7 @@ deriving Repr
 structure StepObs where
   step : SStep
   created : List MsgObs := []
-  obs : List (Nat × KObs) := []
+  obs : List (Nat × Nat × KObs) := []      -- (store, key, what the store reports)
 deriving Repr
 
 def smod : List SpecSys → Nat → (SpecSys → SpecSys) → List SpecSys
@@ -73,6 +82,7 @@ def JSt.apply (kind : Kind) (n : Nat) (j : JSt) : SStep → JSt
     | some o => { j with spec := smod j.spec key (·.step o) }
     | none => j
   | .tick _ _ => j
+  | .round _ _ => j        -- what a round delivers is taken from the messages seen (`judgeStep`)
   | .dl m =>
     match j.msgs.find? (·.id == m) with
     | some mo => j.mergeAll mo.dst (n + m) mo.keys
@@ -85,7 +95,16 @@ def JSt.register (n : Nat) (j : JSt) (mo : MsgObs) : JSt :=
 def actingOf (j : JSt) : SStep → Option Nat
   | .w s _ _ => some s
   | .tick s _ => some s
+  | .round s _ => some s
   | .dl m => (j.msgs.find? (·.id == m)).map (·.dst)
+
+def isRound : SStep → Bool
+  | .round _ _ => true
+  | _ => false
+
+/-- in a lossless round every message handed to the network is delivered at once -/
+def JSt.registerDeliver (n : Nat) (j : JSt) (mo : MsgObs) : JSt :=
+  (j.register n mo).mergeAll mo.dst (n + mo.id) mo.keys
 
 def judgeValue (kind : Kind) (sp : SpecSys) (r : Nat) (o : KObs) (elemsMentioned : List Nat) :
     Option String :=
@@ -114,30 +133,85 @@ def judgeStep (kind : Kind) (n nkeys : Nat) (mentioned : List Nat) (j : JSt) (so
   -- messages built in this step
   let incomplete := so.created.find? fun mo =>
     (List.range nkeys).any fun k => !((specAt j1.spec k).know mo.src).isEmpty && !mo.keys.contains k
-  let j2 := so.created.foldl (JSt.register n) j1
+  let j2 := if isRound so.step then so.created.foldl (JSt.registerDeliver n) j1
+            else so.created.foldl (JSt.register n) j1
   match incomplete with
   | some mo => (j2, some s!"store/gossip/state-omits-known-key message {mo.id}")
   | none =>
     match acting with
     | none => (j2, none)
     | some r =>
-      let missing := (List.range nkeys).find? fun k =>
-        !((specAt j2.spec k).know r).isEmpty && !(so.obs.any (·.1 == k))
+      -- the stores whose state the step may have changed
+      let actors := if isRound so.step then (r :: so.created.map (·.dst)).eraseDups else [r]
+      let missing := actors.findSome? fun a => ((List.range nkeys).find? fun k =>
+        !((specAt j2.spec k).know a).isEmpty && !(so.obs.any fun o => o.1 == a && o.2.1 == k)).map
+          fun k => (a, k)
       match missing with
-      | some k => (j2, some s!"store/key/missing-after-update store {r} key {k}")
+      | some (a, k) => (j2, some s!"store/key/missing-after-update store {a} key {k}")
       | none =>
-        (j2, so.obs.findSome? fun ko =>
-          (judgeValue kind (specAt j2.spec ko.1) r ko.2 mentioned).map
-            fun sig => s!"{sig} store {r} key {ko.1}")
+        (j2, so.obs.findSome? fun o =>
+          (judgeValue kind (specAt j2.spec o.2.1) o.1 o.2.2 mentioned).map
+            fun sig => s!"{sig} store {o.1} key {o.2.1}")
 
-def judgeStore (kind : Kind) (n nkeys : Nat) (steps : List StepObs) : Option String :=
+/-! ### liveness: convergence after lossless rounds -/
+
+/-- is `b` among the replicas the state `a` held at the start has flowed into? (`reach` of
+    `HappyProofs/C18/Exchange.lean`, restated here so that the Spec does not import proofs) -/
+def reachB : List (Nat × Nat) → List Nat → List Nat
+  | [], S => S
+  | (d, s) :: rest, S => reachB rest (if S.contains s then d :: S else S)
+
+/-- the state flows `(dst, src)` a lossless round owes, from the script and the peer lists only -/
+def owedFlows (peers : List (List Nat)) : SStep → List (Nat × Nat)
+  | .round s j =>
+    match peers.getD s [] with
+    | [] => []
+    | q :: qs =>
+      let d := (q :: qs).getD (j % (q :: qs).length) q
+      if (peers.getD d []).contains s then [(d, s), (s, d)] else [(d, s)]
+  | _ => []
+
+/-- everything any store has received, given to every store -/
+def unionAll (n : Nat) (sp : SpecSys) : SpecSys :=
+  (List.range n).foldl (fun t a => (List.range n).foldl (fun t b => t.step (.merge a b)) t) sp
+
+def judgeFinal (kind : Kind) (n nkeys : Nat) (peers : List (List Nat)) (mentioned : List Nat)
+    (j : JSt) (suffix : List StepObs) (fin : List (Nat × Nat × KObs)) : Option String :=
+  let ex := suffix.flatMap fun so => owedFlows peers so.step
+  let full := (List.range n).all fun a => (List.range n).all fun b => (reachB ex [a]).contains b
+  if suffix.isEmpty || !full then none else
+  (List.range nkeys).findSome? fun k =>
+    let u := unionAll n (specAt j.spec k)
+    (List.range n).findSome? fun a =>
+      match fin.find? (fun o => o.1 == a && o.2.1 == k) with
+      | none =>
+        if (u.know a).isEmpty then none
+        else some s!"store/gossip/no-convergence-after-heal-and-rounds store {a} key {k} missing"
+      | some o =>
+        (judgeValue kind u a o.2.2 mentioned).map fun sig =>
+          s!"store/gossip/no-convergence-after-heal-and-rounds store {a} key {k} ({sig})"
+
+/-- the trailing lossless rounds of a script and what precedes them -/
+def splitRounds (steps : List StepObs) : List StepObs × List StepObs :=
+  let suf := (steps.reverse.takeWhile fun so => isRound so.step).reverse
+  (steps.take (steps.length - suf.length), suf)
+
+def judgeStore (kind : Kind) (n nkeys : Nat) (peers : List (List Nat)) (steps : List StepObs)
+    (fin : List (Nat × Nat × KObs)) : Option String :=
   let mentioned := elemsOfSteps steps
-  let rec go (j : JSt) (i : Nat) : List StepObs → Option String
-    | [] => none
+  let pre := (splitRounds steps).1
+  let suffix := (splitRounds steps).2
+  let rec go (j : JSt) (i : Nat) : List StepObs → JSt × Option String
+    | [] => (j, none)
     | so :: rest =>
       match judgeStep kind n nkeys mentioned j so with
-      | (_, some sig) => some s!"{sig} at-step {i}"
+      | (j', some sig) => (j', some s!"{sig} at-step {i}")
       | (j', none) => go j' (i + 1) rest
-  go {} 0 steps
+  match go {} 0 pre with
+  | (_, some sig) => some sig
+  | (j, none) =>
+    match go j pre.length suffix with
+    | (_, some sig) => some sig
+    | (_, none) => judgeFinal kind n nkeys peers mentioned j suffix fin
 
 end HappyModel.C18
